@@ -224,11 +224,13 @@ static int wait_reg(struct rthr *th, int id)
 		rlog[c].n = 0;
 		spawning_child[th->sim] = c + 1;
 		reg_fault_arm(id, 1, FS_FORK, EAGAIN);
+		long ff0 = faults_fired_total();
 		ret = iv_wait_interest_register_spawn(w, child_fn, NULL);
 		reg_fault_disarm(FS_FORK);
 		spawning_child[th->sim] = 0;
 		pending_spawn[th->sim] = 0;
 		if (ret < 0) {
+			unexplained_failure("iv_wait_interest_register_spawn", id, ff0);
 			PROBE[PR_REG_FAILED_EXT]++;
 			RO[c].xi[CX_HOW] = 0;
 			o->xi[WX_INPROG] = 0;
@@ -397,12 +399,14 @@ static int popen_reg(struct rthr *th, int id)
 	spawning_child[th->sim] = c + 1;
 	if (!reg_fault_arm(id, 1, FS_PIPE, EMFILE))
 		reg_fault_arm(id, 2, FS_FORK, EAGAIN);
+	long ff0 = faults_fired_total();
 	fd = iv_popen_request_submit(req);
 	reg_fault_disarm(FS_PIPE);
 	reg_fault_disarm(FS_FORK);
 	spawning_child[th->sim] = 0;
 	pending_spawn[th->sim] = 0;
 	if (fd < 0) {
+		unexplained_failure("iv_popen_request_submit", id, ff0);
 		simk_set_real_fork(0);
 		PROBE[PR_REG_FAILED_EXT]++;
 		RO[c].xi[CX_HOW] = 0;
@@ -603,7 +607,9 @@ static int item_submit(struct rthr *th, int id, int continuation)
 		RO[pool].xi[QX_OUTSTANDING]++;
 	++SEQ;
 	simk_log(101, OP_SUBMIT, id);
-	if (continuation) {
+	if (continuation && pool < 0) {
+		iv_work_pool_submit_continuation(NULL, it);
+	} else if (continuation) {
 		hb_acquire(o);	/* the application hands the item from its completion to the worker */
 		RO[pool].xi[QX_CONT]++;
 		iv_work_pool_submit_continuation(RO[pool].mem, it);
@@ -658,6 +664,11 @@ static void h_work(void *ck)
 		int t = (int)po->p[2] - 1;
 		if (t >= 0 && t < PL->nobj && PL->obj[t].kind == K_ITEM && PL->obj[t].p[0] == pool)
 			item_submit(NULL, t, 1);
+	} else if (po->p[2] > 0 && pool < 0) {
+		/* no pool: the continuation is handed to the calling thread's own loop */
+		int t = (int)po->p[2] - 1;
+		if (t >= 0 && t < PL->nobj && PL->obj[t].kind == K_ITEM && PL->obj[t].p[0] < 0 && PL->obj[t].owner == po->owner)
+			item_submit(cur_thr(), t, 1);
 	}
 	o->xi[IX_STATE] = 3;
 	if (pool >= 0)
@@ -725,7 +736,9 @@ static int ivthread_reg(struct rthr *th, int id)
 	snprintf(name, sizeof(name), "ivt%d", id);
 	o->xi[TX_STATE] = 1;
 	reg_fault_arm(id, 1, FS_PTHREAD_CREATE, EAGAIN);
+	long ff0 = faults_fired_total();
 	if (iv_thread_create(name, ivt_fn, new_cookie(id)) != 0) {
+		unexplained_failure("iv_thread_create", id, ff0);
 		reg_fault_disarm(FS_PTHREAD_CREATE);
 		PROBE[PR_REG_FAILED_EXT]++;
 		o->xi[TX_STATE] = 0;
